@@ -10,7 +10,7 @@ every rule-free, non-generated posting matching that rule's predicate (in postin
 rule line's account and kind and the exact amount (multiplier x matched amount in the matched
 commodity, or the fixed amount as written); nothing else may change; an extension whose must-balance
 postings are off by a whole unit must be rejected, an exactly balanced one must not be."""
-import re
+import re, time
 from fractions import Fraction as F
 import lib
 import xactlib as X
@@ -20,7 +20,7 @@ META = dict(
     level='proof',
     technique='Coq proof about a transcription of auto_xact_t::extend_xact / post_pred / xact_base_t::verify / the add_xact rule loop (extension = input ++ concat_map over the matching non-generated postings; generated postings never re-match for any number and order of rules; rules only reach later transactions; exact multiplication; the memoised quick matcher equals the full predicate; unbalanced extension rejected) + differential correspondence against ledger',
     level_text='Theorems in coq/Properties/Properties_C16.v are stated for the executable model of extend_xact (snapshot loop skipping ITEM_GENERATED postings, quick matcher with memo and fallback, amount multiply/copy, flags and state of the new posting, verify when a new posting must balance) inside the journal loop that keeps the rule list in file order and applies it after finalize. The model is tied to the code by running whole generated journals through ledger and through the extracted model and comparing, per transaction, acceptance and error class and, per posting, account, kind, exact rational amount and precision counter, cost, flags and state.',
-    level_note='Trusted as C01 (finalize is the C01/C02 model). Regular expressions are restricted to literal, case-insensitive substrings; predicates to account / payee matches and `amount < LIT`, `amount > LIT` under ! & |. Not modelled: rule lines with costs or amount expressions, `$account` and %(format) account names, notes/tags and assert/check lines of a rule, --strict/--pedantic, period transactions.',
+    level_note='Known finding F22 (Properties_C16.elided_commodity_postings_extended_refuted): the postings finalize makes for the second and later commodities of an elided amount carry ITEM_GENERATED and are skipped by rules; the model is faithful to that. Trusted as C01 (finalize is the C01/C02 model). Regular expressions are restricted to literal, case-insensitive substrings; predicates to account / payee matches and `amount < LIT`, `amount > LIT` under ! & |. Not modelled: rule lines with costs or amount expressions, `$account` and %(format) account names, notes/tags and assert/check lines of a rule, --strict/--pedantic, period transactions.',
     design_ref='DESIGN.md section 7 C16',
     assumptions=['commodities $ EUR AAA CCC in plain styles, every amount written with its commodity\'s usual number of decimals',
                  'account and payee patterns are literal alphanumeric substrings (regex = case-insensitive substring)',
@@ -422,6 +422,58 @@ def journal_sx(jid, items):
     return lib.sx(['journal', jid] + sxs)
 
 
+# ---------------------------------------------------------------------------- replayable form
+def amt_spec(a):
+    return None if a is None else [str(a.value), a.dec, a.sym]
+
+
+def amt_unspec(x):
+    return None if x is None else X.Amt(F(x[0]), x[1], x[2])
+
+
+def pred_spec(p):
+    if p.op in ('acct', 'payee'):
+        return [p.op, p.args[0]]
+    if p.op in ('lt', 'gt'):
+        return [p.op, amt_spec(p.args[0])]
+    return [p.op] + [pred_spec(a) for a in p.args]
+
+
+def pred_unspec(x):
+    if x[0] in ('acct', 'payee'):
+        return Pred(x[0], x[1])
+    if x[0] in ('lt', 'gt'):
+        return Pred(x[0], amt_unspec(x[1]))
+    return Pred(x[0], *[pred_unspec(a) for a in x[1:]])
+
+
+def items_spec(items):
+    out = []
+    for it in items:
+        if isinstance(it, Rule):
+            out.append(dict(rule=pred_spec(it.pred), syntax=it.syntax, shape=getattr(it, 'shape', '?'),
+                            lines=[[l.acct, l.kind, amt_spec(l.amt), l.state] for l in it.lines]))
+        else:
+            out.append(dict(date=it.date, state=it.state, shape=getattr(it, 'shape', '?'),
+                            posts=[[q.acct, q.kind, amt_spec(q.amt), [q.cost[0], amt_spec(q.cost[1])] if q.cost else None] for q in it.posts]))
+    return out
+
+
+def items_unspec(spec):
+    items = []
+    for d in spec:
+        if 'rule' in d:
+            r = Rule(pred_unspec(d['rule']), [Line(l[0], l[1], amt_unspec(l[2]), l[3]) for l in d['lines']], d['syntax'])
+            r.shape = d.get('shape', '?')
+            items.append(r)
+        else:
+            t = Txn([X.Post(q[0], q[1], amt_unspec(q[2]), (q[3][0], amt_unspec(q[3][1])) if q[3] else None) for q in d['posts']],
+                    d['date'], d['state'])
+            t.shape = d.get('shape', '?')
+            items.append(t)
+    return items
+
+
 # ---------------------------------------------------------------------------- running ledger
 ERRS = [
     ('Transaction does not balance', 'Unbalanced'),
@@ -482,7 +534,20 @@ def parse_rows(out):
 def run_ledger(ctx, name, text):
     path = ctx.path(name)
     open(path, 'w').write(text)
-    st, out, err = lib.run_ledger(['-f', path, 'reg', '--empty', '--no-rounding', '--format', FMT])
+    # ledger exits with the number of errors and names each one on stderr; anything else (the binary or its
+    # library is being replaced by a concurrent build, exec failure) is retried before it is believed
+    for attempt in range(5):
+        try:
+            st, out, err = lib.run_ledger(['-f', path, 'reg', '--empty', '--no-rounding', '--format', FMT])
+        except OSError:
+            if attempt == 4:
+                raise
+            time.sleep(1.5)
+            continue
+        odd = (not isinstance(st, int)) or st < 0 or st >= 126 or (st != 0 and b'Error:' not in err) or (st == 0 and not out)
+        if not odd or attempt == 4:
+            break
+        time.sleep(1.5)
     return st, out, err
 
 
@@ -506,7 +571,7 @@ def run_clean(ctx, res, name, items, with_rules):
 
 
 # ---------------------------------------------------------------------------- oracle
-def expected_extension(rules_before, payee, base_rows):
+def expected_extension(rules_before, payee, base_rows, skip_finalize_generated=True):
     """the postings the property text requires after the rule-free rows, or None when a predicate's
     outcome is not determined by the text (a comparison across commodities).
     -> list of (rule number, acct, kind, sym, value, must_balance, id of the matched posting x rule)"""
@@ -515,7 +580,9 @@ def expected_extension(rules_before, payee, base_rows):
     for rn, rule in rules_before:
         for row in base_rows:
             gid += 1
-            if row['generated']:
+            # a rule-free row flagged generated was made by finalize from an elided amount that stands for several
+            # commodities: by the property text it is a posting like any other (it was not made by a rule)
+            if row['generated'] and skip_finalize_generated:
                 continue
             sym, val = row['amt'][0], row['amt'][1]
             h = rule.pred.holds(payee, row['acct'], sym, val)
@@ -556,6 +623,7 @@ def groups_self_balancing(ext):
 
 
 def oracle(res, items, text, rows, rejected, base_rows, base_rejected):
+    spec = items_spec(items)
     rules_seen = []
     i = 0
     for it in items:
@@ -563,7 +631,7 @@ def oracle(res, items, text, rows, rejected, base_rows, base_rejected):
             rules_seen.append((len(rules_seen), it))
             continue
         payee = 'x%d' % i
-        case = dict(journal=text, xact=i)
+        case = dict(journal=text, xact=i, spec=spec)
         if i in base_rejected:
             # a transaction that is invalid on its own stays invalid
             if i not in rejected:
@@ -580,11 +648,14 @@ def oracle(res, items, text, rows, rejected, base_rows, base_rejected):
             res.count('oracle:undetermined-predicate')
             i += 1
             continue
+        # the same, counting the postings finalize made from an elided amount as postings (finding F22)
+        ext_text = expected_extension(rules_seen, payee, base, skip_finalize_generated=False)
+        variants = [ext] + ([ext_text] if ext_text is not None and ext_text != ext else [])
         noamt = [e for e in ext if e[1] == 'NOAMOUNT']
         has_cost = any(r['cost'] != r['amt'] for r in base)
         if i in rejected:
             cls, extending = rejected[i]
-            if not rules_seen or not ext:
+            if not rules_seen or not any(variants):
                 res.violations.append(dict(key='untouched-transaction-rejected', desc='no rule precedes / matches this valid transaction but it was rejected (%s)' % cls,
                                            case=case, observed='ERR ' + cls, required='accepted unchanged'))
             elif cls == 'NoAmount':
@@ -593,10 +664,10 @@ def oracle(res, items, text, rows, rejected, base_rows, base_rejected):
                                                case=case, observed='ERR NoAmount', required='accepted'))
             elif cls == 'Unbalanced':
                 # some prefix of the rules must leave a non-zero residual
-                if not noamt and has_cost and groups_self_balancing(ext):
+                if not noamt and has_cost and all(groups_self_balancing(e) for e in variants):
                     res.violations.append(dict(key='balanced-extension-rejected', desc='every matched posting received postings that balance among themselves, but the transaction (valid without rules) was rejected',
                                                case=case, observed='ERR Unbalanced', required='accepted'))
-                if not noamt and not has_cost and all(not residual_after(base, ext, rn) for rn, _ in rules_seen):
+                if not noamt and not has_cost and all(not residual_after(base, e, rn) for rn, _ in rules_seen for e in variants):
                     res.violations.append(dict(key='balanced-extension-rejected', desc='the extended transaction balances exactly after every rule but was rejected',
                                                case=case, observed='ERR Unbalanced', required='accepted'))
             else:
@@ -619,21 +690,31 @@ def oracle(res, items, text, rows, rejected, base_rows, base_rejected):
             continue
         suffix = got[n:]
         want = [(a, k, s, v) for (_, a, k, s, v, _, _) in ext]
+        want_text = [(a, k, s, v) for (_, a, k, s, v, _, _) in ext_text] if ext_text is not None else want
         have = [(r['acct'], r['kind'], r['amt'][0], r['amt'][1]) for r in suffix]
         # a zero amount has no visible commodity requirement
         norm = lambda l: [(a, k, (s if v != 0 else None), v) for (a, k, s, v) in l]
-        if norm(want) != norm(have):
+        matched = True
+        if norm(have) == norm(want_text):
+            ext = ext_text if ext_text is not None else ext
+        elif norm(have) == norm(want):
+            # finding F22: exactly the postings for the finalize-made part of an elided amount are missing
+            res.violations.append(dict(key='elided-commodity-posting-not-matched',
+                                       desc='a posting made by finalize for the second commodity of an elided amount matches a rule but received no postings',
+                                       case=case, observed=[str(h) for h in have], required=[str(w) for w in want_text]))
+        else:
+            matched = False
             if not rules_seen:
                 key = 'postings-added-before-any-rule'
-            elif len(have) > len(want):
+            elif len(have) > len(want_text):
                 key = 'extra-generated-postings'
             elif len(have) < len(want):
                 key = 'missing-generated-postings'
             else:
                 key = 'wrong-generated-posting'
             res.violations.append(dict(key=key, desc='generated postings differ from one-per-rule-line-per-match', case=case,
-                                       observed=[str(h) for h in have], required=[str(w) for w in want]))
-        elif any(not r['generated'] for r in suffix):
+                                       observed=[str(h) for h in have], required=[str(w) for w in want_text]))
+        if matched and any(not r['generated'] for r in suffix):
             res.violations.append(dict(key='generated-flag-missing', desc='a rule-made posting is not flagged generated', case=case,
                                        observed=[r['text'] for r in suffix], required='generated'))
         if ext:
@@ -683,7 +764,7 @@ def check_journal(ctx, res, j, items, model):
         if mk == 'ORDER-DEPENDENT':
             res.count('model:order-dependent')
         elif impl != mod:
-            res.disagreements.append(dict(name='C16/extend', case=dict(journal=text, xact=i), impl=impl, model=mod))
+            res.disagreements.append(dict(name='C16/extend', case=dict(journal=text, xact=i, spec=items_spec(items)), impl=impl, model=mod))
         i += 1
     if rejected and st == 0:
         res.violations.append(dict(key='error-exit-zero', desc='a transaction was rejected but the exit status is 0',
@@ -741,7 +822,7 @@ def run(ctx, n_override=None):
                 'teaching each commodity its decimals; rules before, between and after the transactions; non-trivial = at least one rule '
                 'precedes the transaction and the text requires at least one generated posting; distinct by transaction text + the '
                 'rules before it')
-    n = n_override or ctx.scale(1000, 6000)
+    n = n_override or ctx.scale(1000, 5000)
     jobs = []
     for k, items in enumerate(fixed_journals()):
         jobs.append(items)
@@ -764,11 +845,20 @@ def search(ctx, broken):
 
 
 def replay(ctx, obj):
+    """re-run the stored journal: through ledger and the model (correspondence) and the oracle"""
     res = lib.Result()
-    case = obj.get('case') or {}
-    if 'journal' in case:
-        st, out, err = run_ledger(ctx, 'replay.dat', case['journal'])
-        print('status', st)
-        print(out.decode()[:4000])
-        print(err.decode()[:3000])
+    cases = [obj.get('case')] if obj.get('case') else [b.get('case') for b in obj.get('no_longer_checks', []) if b.get('case')]
+    for k, case in enumerate(c for c in cases if c):
+        if 'spec' in case:
+            items = items_unspec(case['spec'])
+            model = X.model_lines_to_map(lib.run_model('C16', [journal_sx('j%d' % k, items)]))
+            check_journal(ctx, res, k, items, model)
+        elif 'journal' in case:
+            st, out, err = run_ledger(ctx, 'replay.dat', case['journal'])
+            print('status', st)
+            print(out.decode()[:4000])
+            print(err.decode()[:3000])
+    known = [k for k in lib.load_known_findings() if k['prop'] == 'C16']
+    res.violations = [v for v in res.violations if not any(re.fullmatch(k['match'], v['key']) for k in known)
+                      or v['key'] == obj.get('key')]
     return res
